@@ -5,13 +5,13 @@ package main
 // request must be answered exactly once — in particular after whatever came before it — and runts get silence.
 
 import (
-	"github.com/chihaya/chihaya/bittorrent"
-	"sync/atomic"
 	"context"
 	"encoding/binary"
 	"fmt"
+	"github.com/chihaya/chihaya/bittorrent"
 	"net"
 	"strings"
+	"sync/atomic"
 	"time"
 
 	udpfe "github.com/chihaya/chihaya/frontend/udp"
